@@ -316,7 +316,10 @@ func (m *machine) Next(t *rapid.T) Op {
 			}
 			return op
 		}
-		switch uni(t, "updctx/what", 5) {
+		switch uni(t, "updctx/what", 6) {
+		case 5:
+			// only the timeout (0 elsewhere = unchanged), possibly above the stored frequency
+			op.Timeout = int64(pickFrom(t, "updctx/timeoutonly", []int{1, 2, 4, 7, 12, 40, 100}))
 		case 0:
 			op.Provs = m.drawProviders(t, c.svc)
 		case 1:
